@@ -216,6 +216,29 @@ def gen_c14_wire_cases(seed, ncases, maxlen=20):
     return cases
 
 
+def gen_c14_filter_cases(seed, ncases):
+    """Commands the cluster path treats specially -- refused (PUBLISH/SUBSCRIBE), executed locally
+    (RCONF; only forms that fail before a configuration change is sent) -- in every letter case,
+    between ordinary commands.  Checked against the model's routing, not against standalone."""
+    r = random.Random(seed * 86028121 + 3)
+    cases = []
+    special = [[b"publish", b"ch", b"msg"], [b"publish"], [b"subscribe", b"ch"], [b"subscribe"], [b"publish", b"a b", b"\xff"],
+               [b"rconf"], [b"rconf", b"x", b"1"], [b"rconf", b"nope", b"2", b"http://x"], [b"rconf", b"add", b"zz", b"u"],
+               [b"publishx", b"c", b"m"], [b"subscribes", b"c"], [b"rconfx"], [b" publish", b"c", b"m"], [b"publish ", b"c", b"m"]]
+    for i in range(ncases):
+        c = Case("c14f_%d_%d" % (seed, i))
+        for _ in range(r.randrange(1, 8)):
+            if r.random() < 0.6:
+                cmd = list(pick(r, special))
+                cmd[0] = gen.randcase(r, cmd[0])
+            else:
+                cmd = pick(r, [[b"ping"], [b"set", b"k", b"v"], [b"get", b"k"], [], [b"PING", b"publish"]])
+            c.cmd(cmd)
+        c.dump()
+        cases.append(c)
+    return cases
+
+
 TIMED = {b"expire", b"setex", b"ttl", b"blpop", b"brpop", b"persist"}
 
 
